@@ -104,6 +104,12 @@ def run(ctx, rep, tier):
         if not items:
             continue
         loops = [it for it in items if isinstance(it, LoopBlock)]
+        if not loops and len(items) == 1 and isinstance(items[0], Line) and items[0].text().strip().startswith("return ") and p.end and p.end[0] == "return":
+            # F-77: a state the program has finished in (accepting, only error paths leave it) is answered before any dispatch; the predicate is C10.l's
+            fin = p.atoms.get("state in self.dfa.accepting_states") is True and any(k.startswith("all(") and "error_handling" in k and b is True for k, b in p.atoms.items())
+            rep.check(fin and items[0].text().strip().endswith("_DONE;"), "C06.b", SB, "no dispatch only for a finished state (accepting, error paths only): DONE",
+                      f"a state's case returns `{items[0].text().strip()}` without dispatching on the byte under {dict(p.atoms)}")
+            continue
         if len(loops) != 1:
             rep.bad("C06.b", SB, "one loop over the state's transitions", f"{len(loops)} loops")
             continue
